@@ -1479,9 +1479,22 @@ def n10(e: Engine, rep: Report, rule: str = 'N10'):
     for r in rets:
         v = r.ast.value
         rep.evaluations += 1
+        def is_res(x, fr):
+            if path_of(x, fr) in res:
+                return True
+            # a helper that creates, queues and returns the request
+            if isinstance(x, ast.Call):
+                vals = common.values_of(g, x, fr)
+                return bool(vals) and not (
+                    len(vals) == 1 and vals[0][0] is x) and all(
+                    path_of(v2, f2) in res for v2, f2 in vals)
+            if isinstance(x, ast.Name):
+                x2, f2 = common.origin(g, x, fr)
+                return x2 is not x and is_res(x2, f2)
+            return False
         via_get = isinstance(v, ast.Call) and \
             isinstance(v.func, ast.Attribute) and v.func.attr == 'get' and \
-            path_of(v.func.value, r.frame) in res
+            is_res(v.func.value, r.frame)
         via_value = v is not None and any(
             isinstance(x, ast.Attribute) and x.attr == 'value' and
             path_of(x.value, r.frame) in res for x in ast.walk(v))
